@@ -270,6 +270,7 @@ PROPS = {
         level='other',
         contracts=[],
         functions=[],
+        case_functions=[dict(module='vf.contracts.quadrature', key='pygyro/splines/spline_interpolators.py::SplineInterpolator1D.get_quadrature_coefficients')],
         bounded=[dict(module='vf.rt.bounded_splines', prop='C09',
                       bound='same sweep of spaces as C08; stored integrals entry by entry against the exact antiderivative, weights = '
                             'integrals of the cardinal interpolating splines, sum = domain length, equal weights on uniform periodic '
